@@ -487,7 +487,9 @@ def inverse_map_rule(ctx, lib):
                     nested = True
             if not nested:
                 assigns.setdefault(n.targets[0].id, []).append(n)
-    provided = {"self", "coordElem", "e", "coordinates_n", "nodesInElement", "np", "least_squares"}
+    # the element loop variable(s): every plain for-target of the function is bound to element 0
+    loop_names = {n.target.id for n in ast.walk(f.node) if isinstance(n, ast.For) and isinstance(n.target, ast.Name)}
+    provided = {"self", "np", "least_squares"} | loop_names
     need, order = set(_free_names(inner)), []
     work = list(need)
     seen = set()
@@ -532,7 +534,8 @@ def inverse_map_rule(ctx, lib):
         dim = ed.dim
         I = ch.I
         coordElem = XArray.from_nested(ch.node_coords)
-        env = {"self": ch.obj, "coordElem": coordElem, "e": 0}
+        env = {"self": ch.obj}
+        env.update({nm: 0 for nm in loop_names})
         try:
             for a in order:
                 skip = False
